@@ -2,7 +2,7 @@
    sites itself is regenerated from the source on every run (coq/gen/GenMapRangeSites.v); the
    obligation C05_sites_classified says every site that exists NOW is classified here.
    OutsideProperty: I/O modules (exec, http), a test helper (MockFS), StringKeys (its callers sort or are
-   I/O modules), compileFunc (only WHICH of several invalid defaults an error message names), and
+   I/O modules), and
    applyDenylist / applyOverrides (order matters only for overlapping names: an observation). *)
 From Coq Require Import List String.
 Require Import RV.model.MapOrder.
@@ -24,7 +24,6 @@ Definition classified : list (string * site_class) :=
     ("ast (*Map).OrderedKeys m.items #0", CollectThenSort);
     ("builtins All arg.Value() #0", CommutativeAggregate);
     ("builtins Any arg.Value() #0", CommutativeAggregate);
-    ("compiler (*Compiler).compileFunc node.Defaults() #0", OutsideProperty);
     ("compiler definitionFromSymbolTable table.symbolsByName #0", CopyByKey);
     ("compiler symbolTableFromDefinition def.SymbolsByName #0", CopyByKey);
     ("modules/exec configureCommand envMap.Value() #0", OutsideProperty);
